@@ -236,3 +236,15 @@ Example C11_fold_session_nonvacuous :
     [[OLenIs 3; OPattern [1; 0; 1]]; [OLenIs 5; OPattern [1; 0; 1; 0; 1]]; [OLenIs 3; OPattern [1; 0; 1]]].
 Proof. exact session_nonvacuous. Qed.
 Print Assumptions C11_fold_session_nonvacuous.
+
+(* F-C11-blank-run-cubic (open finding): flat is polynomial, not linear.  The argument part  \s*(.*?)\s*  of every declaration /
+   method pattern is three adjacent runs that all accept a blank: C(n + 3, 3) backtracking paths on n blanks - the degree-3
+   growth measured on the real transpiler (`led = Led(<n blanks>)!`: 0.07 s, 0.44 s, 3.1 s, 21 s for n = 400 ... 3200) *)
+Example C11_blank_run_cubic_witness :
+  flat blank_args = true /\
+  Z.of_nat (paths blank_args (repeat 32 8)) = 165 /\
+  Z.of_nat (paths blank_args (repeat 32 16)) = 969 /\
+  Z.of_nat (paths blank_args (repeat 32 32)) = 6545 /\
+  Z.of_nat (paths blank_args (repeat 32 64)) = 47905.
+Proof. exact blank_args_cubic. Qed.
+Print Assumptions C11_blank_run_cubic_witness.
